@@ -192,6 +192,7 @@ func initSchedulerGlobals() {
 			}
 			framework.RegisterAction(actionWrapper{inner: a})
 		}
+		framework.RegisterAction(stmtFuzzAction{})
 		framework.RegisterPluginBuilder("verif-monitor", func(framework.PluginArguments) framework.Plugin { return monitorPlugin{} })
 	})
 }
